@@ -474,6 +474,28 @@ def random_phase(chk: Check, kind, fx, judge: Judge, nseq: int, depth: int, seed
                                                     steps_compared=steps)
 
 
+def badindex_cases(chk: Check, kind: str):
+    """A single-element operation that raises leaves the container unchanged - also when what is wrong is the
+    index's type or size (implementation alone: list, length, membership and the internal tables before / after)."""
+    ops = ['insert', 'setidx', 'delidx', 'pop'] + (['wedge'] if kind == 'linqset' else [])
+    cases = [[init, o, b, v] for init in ([0, 2, 4], [2], []) for o in ops for b in ('none', 'str', 'float', 'huge')
+             for v in ((1 if kind == 'Predicates' else 3), 5)]
+    out = probe_json('probe_containers.py', stdin=json.dumps(dict(kind=kind, universe=list(range(6)), gidx=[0], mode='badindex', cases=cases)),
+                     timeout=600)
+    for (init, o, b, v), (exn, same, rep) in zip(cases, out):
+        chk.case([kind, 'badindex', init, o, b, v], nontrivial=True)
+        chk.count('op:' + kind, f'{o}(bad index)')
+        if exn is None:
+            continue        # the container accepted the index (e.g. pop() with None): nothing claimed here
+        if str(exn).startswith('setup:'):
+            raise MachineryError(f'badindex setup failed: {exn}')
+        if not same or not rep:
+            chk.violation(f'{kind}.{o}/failed-operation-changes-container',
+                          f'{kind}({init}).{o} with a {b} index and value {v} raises {exn} but leaves the container changed '
+                          f'(unchanged={same}, representation consistent={rep})',
+                          dict(kind='badindex', container=kind, init=init, op=o, bad=b, value=v, exception=exn))
+
+
 def keysort_cases(chk: Check, kind: str):
     """sort(key=..., reverse=...) with keys that produce ties: the container must end up in the order the plain
     list's own (stable) sort gives, and index() must agree (implementation against the list specification)."""
@@ -571,6 +593,7 @@ def run(args) -> int:
             random_phase(chk, kind, fx[kind], judge, 0, 2, args.seed, seqs=tseqs, label='targeted-slice-conflicts')
         if kind in ('qset', 'Predicates'):
             keysort_cases(chk, kind)
+        badindex_cases(chk, kind)
         chk.notes.setdefault('timing_s', {})[kind] = dict(exhaustive=round(t1 - t0, 1),
                                                           random=round(time.time() - t1, 1))
     chk.exhaustive = False
